@@ -25,8 +25,9 @@ def S(seq):
 
 
 def table(ctx, n, ordered=True):
-    xs = [ctx.real("x%d" % i, -1000, 1000) for i in range(n)]
-    ys = [ctx.real("y%d" % i, -1000, 1000) for i in range(n)]
+    # (the native cross-check samples a smaller box: binary64 cancellation at |x| ~ 1e3 and degree 4 exceeds 1e-9)
+    xs = [ctx.real("x%d" % i, -1000, 1000, sample=(-10, 10)) for i in range(n)]
+    ys = [ctx.real("y%d" % i, -1000, 1000, sample=(-10, 10)) for i in range(n)]
     if ordered:
         for i in range(n - 1):
             ctx.assume(xs[i + 1] - xs[i] >= Fraction(1, 1000))
@@ -70,12 +71,12 @@ def h_few(ctx):
            crosscheck=5, timeout=60)
 def h_poly(ctx, n):
     xs, _ = table(ctx, n)
-    cs = [ctx.real("c%d" % k, -10, 10) for k in range(n)]
+    cs = [ctx.real("c%d" % k, -10, 10, sample=(-2, 2)) for k in range(n)]
     p = lambda x: S([cs[k] * x ** k for k in range(n)])
     dp = lambda x: S([k * cs[k] * x ** (k - 1) for k in range(1, n)])
     ys = [p(x) for x in xs]
     ip = ctx.new(IP, list(xs), list(ys))
-    x = ctx.real("x", -1000, 1000)
+    x = ctx.real("x", -1000, 1000, sample=(-10, 10))
     ctx.assume(and_(x >= xs[0], x <= xs[-1]))
     # within the tolerance of a node the tabulated value is returned as it is (covered by through-the-points)
     ctx.assume(and_(*[abs(x - xi) >= TOL for xi in xs]))
